@@ -85,17 +85,24 @@ fn gen_input(rng: &mut Rng, idx: u64, directed: &[(String, Vec<u8>)]) -> (String
     let small = rng.chance(1, 2);
     let b = gen_base(rng, must, small);
     match rng.below(10) {
+        // one valid module in eight is written in the other byte order (whole, or the magic number only)
+        0..=2 if idx % 8 == 3 => {
+            let whole = rng.chance(1, 2);
+            let w: Vec<u32> = b.words.iter().enumerate().map(|(i, x)| if whole || i == 0 { x.swap_bytes() } else { *x }).collect();
+            (format!("valid-other-byte-order whole={}", whole), words_to_bytes(&w))
+        }
         0..=2 => ("valid".into(), words_to_bytes(&b.words)),
         9 => {
             let len = rng.below(300);
             let mut v: Vec<u8> = (0..len).map(|_| rng.u32() as u8).collect();
             if v.len() >= 4 && rng.chance(1, 2) {
-                v[..4].copy_from_slice(&gram::MAGIC.to_le_bytes());
+                v[..4].copy_from_slice(&if rng.chance(1, 3) { gram::MAGIC.to_be_bytes() } else { gram::MAGIC.to_le_bytes() });
             }
             ("noise".into(), v)
         }
         _ => {
-            let m = rng.below(mutate::N_MUTATORS);
+            // (every mutator gets its share of every run: by index, not by chance)
+            let m = (idx % mutate::N_MUTATORS as u64) as usize;
             let (bytes, label) = mutate::mutate(rng, &Base { words: &b.words, starts: &b.starts, insts: &b.insts }, m);
             (format!("m{} {}", m, label), bytes)
         }
